@@ -145,12 +145,9 @@ struct Link {
     /// Optional, per-link configuration.
     config: config::Link,
 
-    /// Sent messages that are either scheduled for delivery in the future
-    /// or are on hold.
+    /// Sent messages that are either scheduled for delivery (they stay here
+    /// until the destination host picks them up) or are on hold.
     sent: VecDeque<Sent>,
-
-    /// Messages that are ready to be delivered.
-    deliverable: IndexMap<IpAddr, VecDeque<Envelope>>,
 
     /// The current network time, moved forward with [`Link::tick`].
     now: Instant,
@@ -330,7 +327,6 @@ impl Link {
             state_b_a: State::Healthy,
             config: config::Link::default(),
             sent: VecDeque::new(),
-            deliverable: IndexMap::new(),
             now,
         }
     }
@@ -346,9 +342,7 @@ impl Link {
         tracing::trace!(target: TRACING_TARGET, ?src, ?dst, protocol = %message, "Send");
 
         self.rand_partition_or_repair(global_config, rand);
-        let result = self.enqueue(global_config, rand, src, dst, message);
-        self.process_deliverables();
-        result
+        self.enqueue(global_config, rand, src, dst, message)
     }
 
     fn get_state_for_message(&self, src: IpAddr, dst: IpAddr) -> State {
@@ -409,32 +403,30 @@ impl Link {
 
     fn tick(&mut self, now: Instant) {
         self.now = now;
-        self.process_deliverables();
     }
 
-    fn process_deliverables(&mut self) {
-        // TODO: `drain_filter` is not yet stable, and so we have a low quality
-        // implementation here that avoids clones.
-        let mut deliverable = 0;
-        for i in 0..self.sent.len() {
-            let index = i - deliverable;
+    // Remove the messages for `dst` that are due, in the order they were sent.
+    // Until then a message stays in `sent`, where `hold` and the links
+    // iterator can see it.
+    fn take_due(&mut self, dst: IpAddr) -> Vec<Envelope> {
+        let mut due = Vec::new();
+        let mut index = 0;
+        while index < self.sent.len() {
             let sent = &self.sent[index];
-            if let DeliveryStatus::DeliverAfter(time) = sent.status {
-                if time <= self.now {
-                    let sent = self.sent.remove(index).unwrap();
-                    let envelope = Envelope {
-                        src: sent.src,
-                        dst: sent.dst,
-                        message: sent.protocol,
-                    };
-                    self.deliverable
-                        .entry(sent.dst.ip())
-                        .or_default()
-                        .push_back(envelope);
-                    deliverable += 1;
-                }
+            let is_due = sent.dst.ip() == dst
+                && matches!(sent.status, DeliveryStatus::DeliverAfter(time) if time <= self.now);
+            if is_due {
+                let sent = self.sent.remove(index).unwrap();
+                due.push(Envelope {
+                    src: sent.src,
+                    dst: sent.dst,
+                    message: sent.protocol,
+                });
+            } else {
+                index += 1;
             }
         }
+        due
     }
 
     // FIXME: This implementation does not respect message delivery order. If
@@ -446,14 +438,7 @@ impl Link {
         rand: &mut dyn RngCore,
         host: &mut Host,
     ) {
-        let deliverable = self
-            .deliverable
-            .entry(host.addr)
-            .or_default()
-            .drain(..)
-            .collect::<Vec<Envelope>>();
-
-        for message in deliverable {
+        for message in self.take_due(host.addr) {
             let (src, dst) = (message.src, message.dst);
             if let Err(message) = host.receive_from_network(message) {
                 let _ = self.enqueue_message(global_config, rand, dst, src, message);
